@@ -48,11 +48,12 @@ type scen struct {
 	RealTLS     bool // wss through the library's own crypto/tls client against a real crypto/tls server peer
 	TLS12       bool // RealTLS: cap the server at TLS 1.2 (different flights than 1.3)
 	HeaderLen   int  // > 0: Dialer.Header of that many bytes (several header lines), so that connection writes happen inside the user's header writer
+	NoDeadlines bool // the connection refuses every SetDeadline call (no deadline support)
 }
 
 func (s scen) String() string {
 	return fmt.Sprintf("ctx=%s(deadline=%v) timeout=%v event=%s place=%s cancelAt=%v peer=%s chunks=%d delay=%v wbuf=%d tls=%v dialDelay=%v lastOp=%d realtls=%v tls12=%v headerLen=%d",
-		s.CtxKind, s.CtxDeadline, s.Timeout, s.Event, s.Place, s.CancelAt, s.Peer, s.Chunks, s.ChunkDelay, s.WBuf, s.TLS, s.DialDelay, s.LastOp, s.RealTLS, s.TLS12, s.HeaderLen)
+		s.CtxKind, s.CtxDeadline, s.Timeout, s.Event, s.Place, s.CancelAt, s.Peer, s.Chunks, s.ChunkDelay, s.WBuf, s.TLS, s.DialDelay, s.LastOp, s.RealTLS, s.TLS12, s.HeaderLen) + fmt.Sprintf(" nodeadlines=%v", s.NoDeadlines)
 }
 
 type ctxKey struct{}
@@ -209,6 +210,7 @@ func runScenario(t *testing.T, s scen) (o outcome) {
 		ctx, cancel := makeCtx(s.CtxKind, s.CtxDeadline)
 		defer cancel()
 		c := newVconn()
+		c.noDeadlines = s.NoDeadlines
 		if s.RealTLS {
 			tlsPeer(c, s)
 		} else {
@@ -373,6 +375,9 @@ func judge(c *mon.C, s scen, o outcome) bool {
 	if s.Timeout != 0 {
 		cls += "/timeout"
 	}
+	if s.NoDeadlines {
+		cls += "/nodeadlines"
+	}
 	if o.bubblePanic != "" && !strings.Contains(o.bubblePanic, "deadlock") {
 		c.Fail("bubble-panic/"+cls, "panic inside the scenario: "+o.bubblePanic, det())
 		return false
@@ -418,6 +423,9 @@ func judge(c *mon.C, s scen, o outcome) bool {
 	forcedBefore := false
 	switch {
 	case s.Event == "cancel" && s.Place == "blocked", s.Event == "cancel" && s.Place == "dialphase" && s.CancelAt < s.DialDelay:
+		forcedBefore = true
+	case s.Event == "cancel" && s.Place == "dialphase" && s.NoDeadlines && s.ChunkDelay > 0 && s.CancelAt < s.DialDelay+time.Duration(s.Chunks)*s.ChunkDelay && s.CancelAt%s.ChunkDelay != 0:
+		// cancelled strictly between two instalments of the response: the handshake I/O had not finished
 		forcedBefore = true
 	case s.Event == "cancel" && (strings.HasPrefix(s.Place, "before:") || strings.HasPrefix(s.Place, "after:")):
 		var i int
@@ -466,6 +474,11 @@ func judge(c *mon.C, s scen, o outcome) bool {
 		}
 		done := s.DialDelay + hsDone
 		if !silent && (bound < 0 || done < bound) {
+			bound = done
+		}
+		if s.NoDeadlines && !silent {
+			// "on a connection that honours deadlines Dial returns once the context ends": this one does not, so
+			// the bound is the end of the handshake I/O
 			bound = done
 		}
 	}
@@ -704,6 +717,37 @@ func buildScenarios(t *testing.T) []scen {
 			scenList = append(scenList, s)
 		}
 		scenList = append(scenList, scen{CtxKind: "withdeadline", CtxDeadline: time.Second, Event: "none", Place: "dialphase", Peer: "responsive", Chunks: 1, WBuf: 4096, DialDelay: 10 * time.Second})
+		// N: a transport WITHOUT deadline support (every SetDeadline call is refused): the response arrives in
+		// instalments at 1 s, 2 s, (3 s); nothing happens / the context is cancelled / its deadline expires /
+		// Dialer.Timeout fires at 1.5 s, between two instalments. Dial cannot be interrupted there, but what it
+		// owes at its return is the same: success only if the context never ended, otherwise the context's error
+		// and a closed connection.
+		for _, ck := range ctxAll {
+			for _, chunks := range []int{2, 3} {
+				b := scen{CtxKind: ck, CtxDeadline: time.Hour, Event: "none", Peer: "responsive", Chunks: chunks, ChunkDelay: time.Second, WBuf: 4096, NoDeadlines: true}
+				scenList = append(scenList, b)
+				s := b
+				s.Timeout = 1500 * time.Millisecond
+				scenList = append(scenList, s)
+				s = b
+				s.Timeout = time.Hour
+				scenList = append(scenList, s)
+				if ck == "withcancel" || ck == "withdeadline" {
+					s = b
+					s.Event, s.Place, s.CancelAt = "cancel", "dialphase", 1500*time.Millisecond
+					scenList = append(scenList, s)
+					s.TLS = true
+					scenList = append(scenList, s)
+				}
+				if ck == "withdeadline" {
+					s = b
+					s.CtxDeadline = 1500 * time.Millisecond
+					scenList = append(scenList, s)
+					s.Timeout = time.Hour
+					scenList = append(scenList, s)
+				}
+			}
+		}
 	})
 	return scenList
 }
